@@ -89,9 +89,9 @@ CHECKS = {
              "real Connection is fed every one of the 2^(n-1) segmentations of short streams (and boundary/random cuts of long "
              "ones) over an in-memory pipe; after every prefix exactly that prefix's messages must have been delivered. Four "
              "genuine defects found this way were repaired by fix: commits.",
-        note="The theorem is stated over the decisions of Connection::parse_frame (relation Dec / IncRun); that the executable recv_frame / "
-             "drain loop of Conn.v follows those decisions is by construction and exercised by the correspondence, not a Coq lemma. "
-             "Not modelled: how many bytes one read_buf call appends, select! fairness. No axioms.",
+        note="Proved both for the relational reading (Dec / IncRun) and for the executable recv_frame / drain loop of Conn.v "
+             "(C06_exec_segmentation), which is what the correspondence runs against the real Connection. Not modelled: how many bytes "
+             "one read_buf call appends (the theorem holds for every segmentation), select! fairness. No axioms.",
         technique="Coq proof (prefix-stability lemma + induction over decoding derivations) + exhaustive-segmentation correspondence",
         design="2/C06"),
     "C08": dict(
